@@ -12,12 +12,14 @@ import (
 	"github.com/hujm2023/go-sms-protocol/packet"
 	"pgregory.net/rapid"
 
+	"verifharness/gen"
 	"verifharness/vk"
 )
 
 var rec = vk.NewRecorder("C20")
 
 func TestMain(m *testing.M) {
+	vk.Disturb = gen.Disturb
 	code := m.Run()
 	rec.Flush("all")
 	os.Exit(code)
